@@ -13,7 +13,7 @@ package main
 //     a package-level variable of this module that is initialised with such a literal and is
 //     effectively constant (every mention of it is the operand of range or len, or an indexed
 //     read; it is never assigned, its address is never taken);
-//   - the table has at most 8 elements;
+//   - the table has at most 16 elements;
 //   - the body contains no break / continue / goto / label that refers to this loop, no defer
 //     and no function literal (per-iteration variables would otherwise be observable).
 //
@@ -33,7 +33,7 @@ import (
 	"golang.org/x/tools/go/packages"
 )
 
-const maxUnroll = 8
+const maxUnroll = 16
 
 // cloneNode makes a deep copy of a syntax tree (positions kept, objects/scopes dropped).
 func cloneNode[T ast.Node](n T) T {
@@ -502,7 +502,7 @@ func substituteFields(body *ast.BlockStmt, name string, row *ast.CompositeLit, f
 			okAll = false // a field the row leaves at its zero value
 			return e
 		}
-		return &ast.ParenExpr{Lparen: sel.Pos(), X: cloneNode(v), Rparen: sel.End()}
+		return parenIfNeeded(cloneNode(v))
 	}
 	rewrite = func(n ast.Node) {
 		rv := reflect.ValueOf(n)
@@ -545,7 +545,116 @@ func substituteFields(body *ast.BlockStmt, name string, row *ast.CompositeLit, f
 	}
 	_ = copyInit
 	rewrite(body)
+	simplifyApplied(body)
 	return okAll
+}
+
+// simplifyApplied reduces, inside n, a function literal that is applied on the spot and only
+// returns an expression - (func(a *T) *bool { return &a.F })(x) becomes &x.F - and *(&e)
+// becomes e.  (Arguments are substituted for the parameters; the literal's body must be a
+// single return of an expression built from its parameters by selection and address-of.)
+func simplifyApplied(n ast.Node) {
+	var reduce func(e ast.Expr) ast.Expr
+	reduce = func(e ast.Expr) ast.Expr {
+		switch v := e.(type) {
+		case *ast.ParenExpr:
+			v.X = reduce(v.X)
+			switch v.X.(type) {
+			case *ast.Ident, *ast.SelectorExpr, *ast.BasicLit:
+				return v.X
+			}
+		case *ast.CallExpr:
+			v.Fun = reduce(v.Fun)
+			for i := range v.Args {
+				v.Args[i] = reduce(v.Args[i])
+			}
+			lit, ok := unparen(v.Fun).(*ast.FuncLit)
+			if !ok || len(lit.Body.List) != 1 || lit.Type.Params == nil {
+				return e
+			}
+			ret, ok := lit.Body.List[0].(*ast.ReturnStmt)
+			if !ok || len(ret.Results) != 1 {
+				return e
+			}
+			var names []string
+			for _, f := range lit.Type.Params.List {
+				for _, nm := range f.Names {
+					names = append(names, nm.Name)
+				}
+			}
+			if len(names) != len(v.Args) {
+				return e
+			}
+			okBody := true
+			var subst func(x ast.Expr) ast.Expr
+			subst = func(x ast.Expr) ast.Expr {
+				switch w := x.(type) {
+				case *ast.Ident:
+					for i, nm := range names {
+						if w.Name == nm {
+							return parenIfNeeded(cloneNode(v.Args[i]))
+						}
+					}
+					okBody = false // a free variable of the literal
+				case *ast.SelectorExpr:
+					w.X = subst(w.X)
+				case *ast.ParenExpr:
+					w.X = subst(w.X)
+				case *ast.UnaryExpr:
+					if w.Op != token.AND {
+						okBody = false
+					}
+					w.X = subst(w.X)
+				case *ast.StarExpr:
+					w.X = subst(w.X)
+				default:
+					okBody = false
+				}
+				return x
+			}
+			res := subst(cloneNode(ret.Results[0]))
+			if !okBody {
+				return e
+			}
+			return reduce(res)
+		case *ast.StarExpr:
+			v.X = reduce(v.X)
+			if u, ok := unparen(v.X).(*ast.UnaryExpr); ok && u.Op == token.AND {
+				return u.X
+			}
+		case *ast.UnaryExpr:
+			v.X = reduce(v.X)
+		case *ast.BinaryExpr:
+			v.X = reduce(v.X)
+			v.Y = reduce(v.Y)
+		case *ast.SelectorExpr:
+			v.X = reduce(v.X)
+		case *ast.IndexExpr:
+			v.X = reduce(v.X)
+			v.Index = reduce(v.Index)
+		}
+		return e
+	}
+	ast.Inspect(n, func(m ast.Node) bool {
+		switch v := m.(type) {
+		case *ast.AssignStmt:
+			for i := range v.Lhs {
+				v.Lhs[i] = reduce(v.Lhs[i])
+			}
+			for i := range v.Rhs {
+				v.Rhs[i] = reduce(v.Rhs[i])
+			}
+		case *ast.IfStmt:
+			v.Cond = reduce(v.Cond)
+		case *ast.ExprStmt:
+			v.X = reduce(v.X)
+		case *ast.ReturnStmt:
+			for i := range v.Results {
+				v.Results[i] = reduce(v.Results[i])
+			}
+		}
+		return true
+	})
 }
 
 // dispatchThroughTable: T[cond](args) for an effectively constant map[bool]func... literal with
